@@ -1,6 +1,7 @@
 package world
 
 import (
+	"errors"
 	"bytes"
 	"context"
 	"fmt"
@@ -41,6 +42,9 @@ type Bus struct {
 	DupP     float64
 	// Tap sees every envelope at publish time (after re-serialisation).
 	Tap func(from, to string, e *wire.Envelope, fate string)
+	// FailSend makes Publish fail for the envelopes it selects: the sender gets
+	// an error and nothing is delivered (a connection fault at send time).
+	FailSend func(from, to string, e *wire.Envelope) bool
 	// Intercept may swallow or replace an envelope (adversarial engines).
 	Intercept func(from, to string, e *wire.Envelope) (*wire.Envelope, bool)
 }
@@ -181,6 +185,11 @@ func (b *Bus) Publish(ctx context.Context, e *wire.Envelope) error {
 		b.S.Event(from, "send-fail", desc+" "+err.Error())
 		b.S.Count("probe.unserialisable_message", 1)
 		return err
+	}
+	if b.FailSend != nil && b.FailSend(from, to, e2) {
+		b.S.Event(from, "send-error", desc+" -> "+to+" [injected connection fault]")
+		b.S.Count("fault.send_error", 1)
+		return errors.New("injected connection fault")
 	}
 	if b.Intercept != nil {
 		var keep bool
